@@ -972,8 +972,36 @@ def results_table_rules(repo, chk):
     chk.floor("R-C16-4", 10)
 
 
+def report_grid_rules(repo, chk):
+    """R-C16-8 (T3, WNTRSimulator._setup_sim_options interpreted on mock time options; finite grid of option triples).  run_sim saves a row whenever the clock is a
+    multiple of the report step, and the clock advances by hydraulic steps: there is a row at EVERY report instant only if the report step the simulator settles on is
+    a positive multiple of the hydraulic step it settles on (after the pattern step and the report step have both had their say).  Otherwise rows appear only at the
+    common multiples and report instants are silently skipped."""
+    from .c12 import concrete_sim_steps, concrete_world
+    sso = repo.func(CORE, "WNTRSimulator._setup_sim_options")
+    chk.fn(sso)
+    world = concrete_world(repo)
+    n = 0
+    for hyd in (900, 1800, 3600):
+        for pat in (600, 900, 1200, 1800, 3600, 7200):
+            for rep in (900, 1800, 2700, 3600, 5400, 7200):
+                h, r = concrete_sim_steps(world, hyd, pat, rep)
+                if not isinstance(h, (int, float)):
+                    raise ExtractError("_setup_sim_options on (hydraulic %s, pattern %s, report %s): %s" % (hyd, pat, rep, h))
+                n += 1
+                ok = isinstance(r, (int, float)) and h > 0 and r >= h and r % h == 0 and r <= rep and h <= min(hyd, pat, rep)
+                if ok and (hyd, pat, rep) not in ((3600, 1200, 1800), (3600, 1800, 2700), (1800, 600, 900), (3600, 3600, 3600)):
+                    continue                 # the discharged bulk is summarised in one instance below; a few named triples are listed individually
+                chk.expect(ok, "R-C16-8", "hydraulic %s s, pattern %s s, report %s s: the report step in force is a multiple of the hydraulic step in force" % (hyd, pat, rep), loc(sso),
+                           "rows are saved when the clock (advancing by hydraulic steps) is a multiple of the report step", expected="report = k x hydraulic, both no longer than asked for",
+                           found="hydraulic %s, report %s" % (h, r))
+    chk.expect(n == 108, "R-C16-8", "all 108 option triples of the grid were evaluated", loc(sso), found=n)
+    chk.floor("R-C16-8", 5)
+
+
 def run(repo, chk):
     external_failure_rules(repo, chk)
+    report_grid_rules(repo, chk)
     rs = repo.func(CORE, "WNTRSimulator.run_sim")
     chk.fn(rs)
     fl = Flow(rs)
@@ -1669,6 +1697,10 @@ _LINE_SEARCH_FLAT = (
 )
 
 WITNESSES = [
+    dict(name="report-step-left-off-the-hydraulic-grid", file=CORE, old="                new_report = self._report_timestep - (self._report_timestep%self._hydraulic_timestep)\n",
+         new="                new_report = self._report_timestep\n", rule="R-C16-8"),
+    dict(name="report-step-reconciled-with-floor-division-preserving", file=CORE, old="                new_report = self._report_timestep - (self._report_timestep%self._hydraulic_timestep)\n",
+         new="                new_report = (self._report_timestep // self._hydraulic_timestep) * self._hydraulic_timestep\n", silent=True),
     dict(name="linear-solve-through-splu-keeps-old-handler", file=SOLV, old='                d = -sp.linalg.spsolve(J, r, permc_spec="COLAMD", use_umfpack=False)\n', new='                lu = sp.linalg.splu(J.T, permc_spec="COLAMD")\n                d = -lu.solve(r, trans="T")\n', rule="R-C16-7"),
     dict(name="quiet-linear-solve-through-splu-with-its-handler", file=SOLV, silent=True, old='                d = -sp.linalg.spsolve(J, r, permc_spec="COLAMD", use_umfpack=False)\n            except sp.linalg.MatrixRankWarning:\n',
          new='                lu = sp.linalg.splu(J.T, permc_spec="COLAMD")\n                d = -lu.solve(r, trans="T")\n            except (sp.linalg.MatrixRankWarning, RuntimeError):\n'),
